@@ -101,16 +101,26 @@ def _zi(x):
 
 
 class SearchLoop(LoopSpec):
-    """`for cx in possible_contexts: exact match -> return; convertible -> matches.append(cx)`"""
+    """`for cx in possible_contexts: exact match -> return; convertible -> remembered`.  The convertible candidates are
+    remembered either in a list (`matches.append(cx)`, the first one is used afterwards) or in a single variable that keeps
+    the first one (`if first is None: first = cx`); both forms are covered - what is stated is the same: whatever is
+    remembered is the current candidate (or one remembered before) and it is convertible."""
 
     def __init__(self, loop, P):
         self.loop, self.P = loop, P
-        self.acc = None
-        for n in ast.walk(ast.Module(body=loop.body, type_ignores=[])):
+        self.acc, self.scalar = None, None
+        body = ast.Module(body=loop.body, type_ignores=[])
+        for n in ast.walk(body):
             if isinstance(n, ast.Call) and isinstance(n.func, ast.Attribute) and n.func.attr == "append" and isinstance(n.func.value, ast.Name):
                 self.acc = n.func.value.id
         if self.acc is None:
-            raise Unsupported("_get_valid_context: no accumulator list in the search loop")
+            tgt = loop.target.id if isinstance(loop.target, ast.Name) else None
+            cands = [n.targets[0].id for n in ast.walk(body) if isinstance(n, ast.Assign) and len(n.targets) == 1
+                     and isinstance(n.targets[0], ast.Name) and isinstance(n.value, ast.Name) and n.value.id == tgt]
+            if len(set(cands)) == 1:
+                self.scalar = cands[0]
+        if self.acc is None and self.scalar is None:
+            raise Unsupported("_get_valid_context: the search loop remembers candidates neither in a list nor in one variable")
 
     def invariant(self, I, fr):
         # no earlier candidate was an exact transfer-syntax match (otherwise the function had returned)
@@ -124,16 +134,48 @@ class SearchLoop(LoopSpec):
         return z3.ForAll([J], z3.Implies(z3.And(J >= 0, J < i), g["cts"](g["cand_index"](J)) != ts))
 
     def havoc(self, I, fr):
-        fr.locals[self.acc] = []
-        I.ghost["in_loop"] = True
+        g = I.ghost
+        if self.acc is not None:
+            fr.locals[self.acc] = []
+        else:
+            # an earlier iteration may or may not have remembered a (convertible) candidate already
+            if I.choose(2, "a candidate is already remembered") == 0:
+                fr.locals[self.scalar] = None
+            else:
+                g["earlier"] = self._some_convertible(I, "earlier")
+                fr.locals[self.scalar] = g["earlier"]
+        g["in_loop"] = True
+
+    def _some_convertible(self, I, tag):
+        g = I.ghost
+        seq = g["candidates"]
+        j = I.fresh("int", f"{tag}_index")
+        I.assume(z3.And(j.e >= 0, j.e < seq.length))
+        o = seq.elem(j.e)
+        ts = g.get("tr_ident")
+        if ts is not None:
+            k = o.cx_index
+            I.assume(z3.And(z3.Not(COMP(ts)), z3.Not(COMP(g["cts"](k))), LE(ts) == LE(g["cts"](k)), g["cts"](k) != ts))
+        return o
 
     def after_body(self, I, fr):
         g = I.ghost
-        added = fr.locals[self.acc]
         cx = fr.locals.get(self.loop.target.id)
         P = self.P
-        if added:
-            ok = len(added) == 1 and added[0] is cx
+        if self.acc is not None:
+            added = fr.locals[self.acc]
+            remembered_now = bool(added)
+            ok = (not added) or (len(added) == 1 and added[0] is cx)
+        else:
+            now = fr.locals.get(self.scalar)
+            earlier = g.get("earlier")
+            if earlier is not None and now is earlier:
+                return                      # kept what was remembered (itself a convertible candidate)
+            # (replacing a remembered candidate by the current one is allowed as long as the current one is convertible too:
+            # the property does not say WHICH convertible context is used)
+            remembered_now = now is not None
+            ok = (now is None and earlier is None) or (now is cx)
+        if remembered_now:
             I.ob(f"{P}/search:a-candidate-is-remembered-at-most-once", ok)
             ts = g.get("tr_ident")
             k = cx.cx_index
@@ -148,6 +190,10 @@ class SearchLoop(LoopSpec):
         g["in_loop"] = False
         g["exited"] = True
         seq = g["candidates"]
+        if self.scalar is not None:
+            # after the loop: nothing remembered, or some convertible candidate (justified by the per-iteration obligations)
+            fr.locals[self.scalar] = None if I.choose(2, "a convertible candidate was found") == 0 else self._some_convertible(I, "found")
+            return
         m = I.fresh("int", "n_convertible")
         I.assume(z3.And(m.e >= 0, m.e <= seq.length))
         sel = z3.Function("convertible_at", INT, INT)
